@@ -1122,7 +1122,9 @@ class TaskJobManager:
         ):
             # The command was not run because the workflow is stopping: this
             # is not a submission failure, leave the task as it is (it will
-            # be prepared again on restart).
+            # be prepared again on restart). No submission is in progress
+            # for it any more.
+            itask.waiting_on_job_prep = True
             return
 
         try:
